@@ -154,7 +154,7 @@ func (s *Scen) histories(tier string, rng *rand.Rand, want map[string]bool) []*H
 func allScenarios() []scenBuilder {
 	return []scenBuilder{
 		{"p0", func(tier string, rng *rand.Rand) ([]*Scen, error) {
-			b, err := buildP0(chain.Phase0Only)
+			b, err := buildP0(chain.Phase0Only, rng)
 			if err != nil {
 				return nil, err
 			}
@@ -172,6 +172,26 @@ func allScenarios() []scenBuilder {
 			}
 			return []*Scen{newScen("p0", b, v), newScen("p0early", b, ve), newScen("p0lag", b, vl)}, nil
 		}},
+		// the p0 chain with the altair upgrade in the middle (epoch 5): messages around the fork
+		// boundary are signed and verified under the version of their own epoch (thorough tier)
+		{"p0fork", func(tier string, rng *rand.Rand) ([]*Scen, error) {
+			if tier != "thorough" {
+				return nil, nil
+			}
+			b, err := buildP0(chain.Forks(5, chain.FarFuture, chain.FarFuture, chain.FarFuture), rng)
+			if err != nil {
+				return nil, err
+			}
+			var out []*Scen
+			for _, up := range []common.Slot{19, 21, 26} {
+				v, err := b.view(fmt.Sprintf("p0fork%d", up), keepUpTo(up), "main", 0, true)
+				if err != nil {
+					return nil, err
+				}
+				out = append(out, newScen(v.Name, b, v))
+			}
+			return out, nil
+		}},
 		{"nofin", func(tier string, rng *rand.Rand) ([]*Scen, error) {
 			b, err := buildNofin(12)
 			if err != nil {
@@ -184,7 +204,7 @@ func allScenarios() []scenBuilder {
 			return []*Scen{newScen("nofin", b, v)}, nil
 		}},
 		{"alt", func(tier string, rng *rand.Rand) ([]*Scen, error) {
-			b, err := buildAlt(15)
+			b, err := buildAlt(15, rng)
 			if err != nil {
 				return nil, err
 			}
